@@ -137,7 +137,7 @@ CHECKS["C19"] = dict(
 CHECKS["C11"] = dict(
     technique="Hypothesis-generated puzzle instances. Small boards: decided exhaustively by independent rule checkers and candidate enumerators (reference model), compared with solve_<puzzle> cell by cell. Boards of 16-50 cells: independently planted rule-obeying grids (or solver models accepted by the rule checker) with derived clues; every model of the posted program must obey the rules, a planted grid must be found, no decided cell may contradict a rule-obeying grid",
     text="All 26 listed modules have an independent spec in /verif/puzzles: a generator of small boards incl. non-square ones with clues on the border and zero clues, a candidate enumerator (all 2^cells markings; all simple cycles of the lattice plus 'no line'; Latin squares by backtracking; connected partitions; 5^k triangle fillings with a geometric rectangle test) and a rule checker transcribed from the published rules (DESIGN.md Appendix A). For each instance the set V of rule-obeying grids is computed; solve_<puzzle> must report a solution iff V is non-empty and every answer-key cell must be the value common to V or None when V disagrees. Instances where a don't-care candidate (rule corner on which published rule sets differ) exists are skipped and counted. Long thin boards (2x12..15, 1x21..24) with two-digit clues are included for castle_wall and yajilin. Exhaustive per instance, sampled over instances (quick: 200 per puzzle; thorough: 2400). Second layer (puzzles/large.py) for boards that cannot be enumerated (16-50 cells, sudoku 9x9): the rule checker alone is the oracle. Instances are planted independently where a construction exists (random simple loops as boundaries of grown face regions for the six loop puzzles, shuffled Latin / sudoku patterns, greedy akari lighting, grown creek regions, cycle-free gokigen flips, non-touching star permutations with grown blocks, aquarium levels, compass rooms, the small generators' planted dominoes / tetrominoes) or bootstrapped (a clue-poor instance is solved in model mode - Solver.solve replaced by find_answer for one call - a model accepted by the checker becomes the planted grid and the clues are derived from it). Checked: the first 3 models of the posted constraints obey the rules (soundness), a planted grid is not lost (completeness), no cell is decided against a rule-obeying grid (exactness, one direction). The checkers are self-tested against the enumerators on small boards in every run.",
-    note="Trusted base: the rule transcriptions in /verif/puzzles (three-valued), default backend z3. Exhaustive board sizes are bounded by the enumerators (<= 12-16 cells, loops on <= 4x4 / 4x5 cells); the second layer goes to 50 cells but is one-directional for bootstrapped puzzles (an encoding that is too strong everywhere cannot be seen through its own models: nurikabe, yinyang, nurimisaki, heyawake, fillomino, fivecells, view, shakashaka, putteria rely on the small layer for that direction). 26/26 per-puzzle sensitivity mutants plus 6 large-board-only mutants caught (four design-list mutants were equivalent and replaced, see tools/mutant_table.py). Found and fixed the aquarium table defect.",
+    note="Trusted base: the rule transcriptions in /verif/puzzles (three-valued), default backend z3. Exhaustive board sizes are bounded by the enumerators (<= 12-16 cells, loops on <= 4x4 / 4x5 cells); the second layer goes to 50 cells but is one-directional for bootstrapped puzzles (an encoding that is too strong everywhere cannot be seen through its own models: nurimisaki, fivecells, view, shakashaka and unplanted fillomino instances rely on the small layer for that direction; the other 21 puzzles have independently planted grids that must themselves be models). 26/26 per-puzzle sensitivity mutants plus 7 large-board-only mutants caught (four design-list mutants were equivalent and replaced, see tools/mutant_table.py). Found and fixed the aquarium table defect.",
     design_ref="3/C11",
 )
 
